@@ -118,6 +118,15 @@ PROPS["C12"] = {
                     "the lock hooks log acquisitions/releases of the two global locks on the calling thread; spawned threads only perform network callbacks (counted)"],
 }
 
+PROPS["C09"] = {
+    "modules": ["C09"], "required_theorems": ["C09_holds", "step_sel", "installed_is_next"], "monitors": ["C09"],
+    "fields": ["ret", "pj", "pd", "sj"],
+    "campaign": camp([("lifecycle", 500), ("rollback", 400), ("mixed", 300), ("chaos", 200), ("signing", 150)],
+                     [("lifecycle", 8000), ("rollback", 6000), ("mixed", 4000), ("chaos", 3000), ("signing", 3000), ("release", 2000), ("damage", 2000)]),
+    "assumptions": ["InitKey: every effective initialisation of a history configures the same public key (it is compiled into the app)",
+                    "the 'stays selected' clause is claimed for installs after which every record of number n (selection, last good, booting) matches the artifact in place: not for a signature that fails under the configured key (C07), nor for a server that re-issues number n with different bytes while an older record of n is still last good / booting"],
+}
+
 # Properties whose theorems are still being written: monitors + correspondence only (not in MANIFEST).
 for _p, _mon, _camp in [
     ("C01", ["C01"], camp(LIFE_Q, LIFE_T)), ("C03", ["C03"], camp(LIFE_Q, LIFE_T)), ("C05", ["C05"], camp(LIFE_Q, LIFE_T)),
